@@ -103,3 +103,13 @@ def calls_reaching(fn, pattern, depth=2):
         elif depth > 0 and any(contains(k, depth - 1) for k in P.callee_keys(fn, c)):
             out.append(c)
     return out
+
+
+EXEC_KEEP = (r"^sqlgrep::execution::|^sqlgrep::executor::OutputPrinter::|^sqlgrep::helpers::FollowFileIterator|^sqlgrep::data_model::|"
+             r"^sqlgrep::model::|^sqlgrep::executor::(ConsolePrinter|CapturedPrinter)|^sqlgrep::executor::ExecutionStatistics::")
+
+
+def exec_view(R, name):
+    """the executor function with its own local helpers (process_line, is_running, print_result_row, ...) inlined; calls into the
+    engine, the printer and the follow iterator stay calls"""
+    return PR.view(R.prog, R.need_fn(name), keep=EXEC_KEEP)
